@@ -572,7 +572,15 @@ func (w *vfWorld) recoverWrap(h http.Handler) http.Handler {
 	})
 }
 
+var vfWorldsClosed int
+
 func (w *vfWorld) Close() {
+	// connections that a failed operation of the daemon left checked out (a
+	// transaction nobody finished) are only released by the sqlite driver's finalizer:
+	// collect regularly, or a long search runs out of file descriptors
+	if vfWorldsClosed++; vfWorldsClosed%128 == 0 {
+		runtime.GC()
+	}
 	if w.state.db != nil {
 		w.state.db.Close()
 	}
